@@ -417,7 +417,15 @@ impl Gen {
             let same: Vec<&Vec<u8>> = self.keys_seen.iter().filter(|(ff, _)| *ff == f).map(|(_, k)| k).collect();
             if !same.is_empty() {
                 let k0 = (*rng.pick(&same)).clone();
-                key = Some(match rng.below(10) {
+                // AES-192/256: now and then a key sharing one round key of the expanded schedule with k0
+                let tw = if k0.len() == klen && fam.name.starts_with("aes") && rng.chance(1, 3) {
+                    let round = if rng.chance(1, 2) { None } else { Some(1 + rng.below(13) as usize) };
+                    schedule_twin::twin(&k0, round, rng)
+                } else {
+                    None
+                };
+                key = Some(match if tw.is_some() { 99 } else { rng.below(10) } {
+                    99 => tw.unwrap(),
                     0..=3 => k0,
                     4..=6 => (0..klen).map(|i| k0[i % k0.len()]).collect(),
                     7 => {
@@ -640,5 +648,133 @@ impl Gen {
         };
         self.call_steps.push(w.step as u32);
         Op::Call { id, task, dir, shape, n: n as u32, in_off: in_off as u32, out_off: out_off as u32, data }
+    }
+}
+
+/// Keys whose *expanded* schedules partly coincide. Random, structured or bit-related keys never share a round
+/// key; state that is identified by a part of the schedule (a fingerprint, a skipped copy) only shows on such
+/// pairs. Implemented where the schedule is invertible from a window of its words: AES-192 and AES-256 (for
+/// AES-128 one round key determines the key, so no second key exists).
+pub mod schedule_twin {
+    use crate::prng::Prng;
+
+    fn sbox() -> [u8; 256] {
+        // multiplicative inverse in GF(2^8) followed by the affine map (FIPS-197 5.1.1)
+        let mut sb = [0u8; 256];
+        let (mut p, mut q) = (1u8, 1u8);
+        loop {
+            p = p ^ (p << 1) ^ if p & 0x80 != 0 { 0x1B } else { 0 };
+            q ^= q << 1;
+            q ^= q << 2;
+            q ^= q << 4;
+            if q & 0x80 != 0 {
+                q ^= 0x09;
+            }
+            let x = q ^ q.rotate_left(1) ^ q.rotate_left(2) ^ q.rotate_left(3) ^ q.rotate_left(4);
+            sb[p as usize] = x ^ 0x63;
+            if p == 1 {
+                break;
+            }
+        }
+        sb[0] = 0x63;
+        sb
+    }
+
+    fn sub_word(sb: &[u8; 256], w: u32) -> u32 {
+        u32::from_be_bytes(w.to_be_bytes().map(|b| sb[b as usize]))
+    }
+
+    fn f(sb: &[u8; 256], nk: usize, i: usize, prev: u32) -> u32 {
+        if i % nk == 0 {
+            let mut rc = 1u8;
+            for _ in 1..i / nk {
+                rc = (rc << 1) ^ if rc & 0x80 != 0 { 0x1B } else { 0 };
+            }
+            sub_word(sb, prev.rotate_left(8)) ^ ((rc as u32) << 24)
+        } else if nk > 6 && i % nk == 4 {
+            sub_word(sb, prev)
+        } else {
+            prev
+        }
+    }
+
+    /// FIPS-197 key expansion, as big-endian words
+    pub fn expand(key: &[u8]) -> Vec<u32> {
+        let sb = sbox();
+        let nk = key.len() / 4;
+        let total = 4 * (nk + 7);
+        let mut w: Vec<u32> = key.chunks(4).map(|c| u32::from_be_bytes([c[0], c[1], c[2], c[3]])).collect();
+        for i in nk..total {
+            let t = f(&sb, nk, i, w[i - 1]);
+            w.push(w[i - nk] ^ t);
+        }
+        w
+    }
+
+    /// the key whose schedule holds `window` at word positions start..start+nk
+    pub fn key_from_window(nk: usize, start: usize, window: &[u32]) -> Vec<u8> {
+        let sb = sbox();
+        let mut w = vec![0u32; start + nk];
+        w[start..].copy_from_slice(window);
+        for i in (nk..start + nk).rev() {
+            w[i - nk] = w[i] ^ f(&sb, nk, i, w[i - 1]);
+        }
+        w[..nk].iter().flat_map(|x| x.to_be_bytes()).collect()
+    }
+
+    /// another key of the same length sharing round key `round` (None: the last) with `key`
+    pub fn twin(key: &[u8], round: Option<usize>, rng: &mut Prng) -> Option<Vec<u8>> {
+        let nk = key.len() / 4;
+        if key.len() % 4 != 0 || (nk != 6 && nk != 8) {
+            return None;
+        }
+        let nr = nk + 6;
+        let r = round.unwrap_or(nr).clamp(1, nr);
+        let w = expand(key);
+        let total = w.len();
+        let lo = (4 * r + 4).saturating_sub(nk);
+        let hi = (4 * r).min(total - nk);
+        let start = lo + rng.below((hi - lo + 1) as u64) as usize;
+        let mut window: Vec<u32> = w[start..start + nk].to_vec();
+        for (j, x) in window.iter_mut().enumerate() {
+            let pos = start + j;
+            if pos < 4 * r || pos >= 4 * r + 4 {
+                *x ^= (rng.next() as u32) | 1;
+            }
+        }
+        Some(key_from_window(nk, start, &window))
+    }
+
+    /// self-test: FIPS-197 A.2 / A.3 last words, window inversion, and the twin relation
+    pub fn selftest() -> Result<(), String> {
+        let k192: Vec<u8> = (0..24u8).map(|i| [0x8e, 0x73, 0xb0, 0xf7, 0xda, 0x0e, 0x64, 0x52, 0xc8, 0x10, 0xf3, 0x2b, 0x80, 0x90, 0x79, 0xe5, 0x62, 0xf8, 0xea, 0xd2, 0x52, 0x2c, 0x6b, 0x7b][i as usize]).collect();
+        let w = expand(&k192);
+        if w.len() != 52 || w[51] != 0x01002202 || w[6] != 0xfe0c91f7 {
+            return Err(format!("AES-192 expansion: w6={:08x} w51={:08x}", w[6], w[51]));
+        }
+        let k256: Vec<u8> = vec![0x60, 0x3d, 0xeb, 0x10, 0x15, 0xca, 0x71, 0xbe, 0x2b, 0x73, 0xae, 0xf0, 0x85, 0x7d, 0x77, 0x81, 0x1f, 0x35, 0x2c, 0x07, 0x3b, 0x61, 0x08, 0xd7, 0x2d, 0x98, 0x10, 0xa3, 0x09, 0x14, 0xdf, 0xf4];
+        let w = expand(&k256);
+        if w.len() != 60 || w[59] != 0x706c631e || w[8] != 0x9ba35411 {
+            return Err(format!("AES-256 expansion: w8={:08x} w59={:08x}", w[8], w[59]));
+        }
+        let mut rng = Prng::new(7);
+        for key in [k192, k256] {
+            let nk = key.len() / 4;
+            let w = expand(&key);
+            for start in [0, 3, w.len() - nk] {
+                if key_from_window(nk, start, &w[start..start + nk]) != key {
+                    return Err(format!("window inversion nk={} start={}", nk, start));
+                }
+            }
+            for round in [None, Some(1), Some(5), Some(nk + 5)] {
+                let t = twin(&key, round, &mut rng).ok_or("twin")?;
+                let r = round.unwrap_or(nk + 6);
+                let wt = expand(&t);
+                if t == key || wt[4 * r..4 * r + 4] != w[4 * r..4 * r + 4] {
+                    return Err(format!("twin nk={} round={}", nk, r));
+                }
+            }
+        }
+        Ok(())
     }
 }
